@@ -49,6 +49,13 @@ def setup_worker():
         build.install_fjcore('plain')
     FS = simfs.SimFS()
     FS.install()
+    # a reader that sizes an allocation from a damaged length field must fail as a MemoryError inside the case (a
+    # totality violation with a replay file), not take the machine's memory and stall the whole check
+    import resource
+    soft, hard = resource.getrlimit(resource.RLIMIT_AS)
+    cap = 6 << 30
+    if soft == resource.RLIM_INFINITY or soft > cap:
+        resource.setrlimit(resource.RLIMIT_AS, (cap, hard))
 
 
 def config_class(cfg):
